@@ -50,13 +50,15 @@ class P:
                     items.append("x" + b.hex())
                 else:
                     items.append(o["status"] + ("(%s)" % o.get("detail", "")[:60].replace(" ", "_") if o.get("detail") else ""))
-            out.append(" ".join(items))
+            out.append(" ".join(items) + (" FOREIGN-BUFFERS=%d" % r["foreign_buffers"] if r.get("foreign_buffers") else ""))
         return out
 
     def judge(self, line, impl, model):
         if impl.startswith("DRIVER-ERROR"):
             return impl
         c = self.cj[line]
+        if " FOREIGN-BUFFERS=" in impl:
+            return "mirroring returned %s receive buffer(s) to the pool of another protocol (buffers of the wrong size then reach that protocol's receive loop)" % impl.rsplit("=", 1)[1]
         got, want = impl.split(" "), model.split(" ")
         for k, (g, w, d) in enumerate(zip(got, want, c["dgrams"])):
             src, payload = bytes.fromhex(d[0]), bytes.fromhex(d[1])
